@@ -89,6 +89,35 @@ func genCfg(rnd *tr.Rand, focus string) *caseCfg {
 	}
 	c.steps = rnd.Range(4, 30)
 	c.maxConns = rnd.Range(1, 3)
+	if focus == "fault" {
+		c.maxConns = rnd.Range(2, 3)
+		c.steps = rnd.Range(12, 30)
+		c.pShutdown = 0
+		n := 1
+		if rnd.Chance(30) {
+			n = 2
+		}
+		for i := 0; i < n; i++ {
+			name := rnd.PickS([]string{"read", "read", "wr", "wr", "close", "epctl-add", "epctl-mod", "epctl-del", "accept", "wait"})
+			var kinds []string
+			switch name {
+			case "read", "wr":
+				kinds = []string{"econnreset", "epipe", "etimedout", "ebadf", "enomem", "einval"}
+				if !c.et {
+					kinds = append(kinds, "eagain", "eagain")
+				}
+			case "accept":
+				kinds = []string{"eintr", "econnaborted", "econnreset"}
+			case "wait":
+				kinds = []string{"eintr"}
+			case "close":
+				kinds = []string{"eintr", "ebadf"}
+			default:
+				kinds = []string{"enomem", "ebadf", "einval"}
+			}
+			c.inject = append(c.inject, inject{name: name, index: rnd.Intn(7), kind: rnd.PickS(kinds), cid: -1})
+		}
+	}
 	return c
 }
 
@@ -428,7 +457,7 @@ func runCase(w *tr.Writer, seed uint64, idx int, focus string) {
 	if !cfg.udp && !engineDown() {
 		for _, p := range live() {
 			ci := h.byCid(p.cid)
-			if ci == nil || ci.untracked {
+			if ci == nil || ci.untracked || ci.unflushed {
 				continue
 			}
 			deadline := time.Now().Add(1500 * time.Millisecond)
@@ -548,6 +577,15 @@ func finalOracles(rec *recorder, h *handler, cfg *caseCfg, peers []*peer) {
 			rec.failLocked("harness", "kernel-stream", fmt.Sprintf("cid %d", p.cid))
 		}
 		if ci == nil {
+			continue
+		}
+		if f, ok := rec.faulted[p.cid]; ok && ci.opened {
+			// C18: the connection hit by a fatal fault is closed, and the handler is told why
+			if !ci.closed {
+				rec.failLocked("fault-close", f, fmt.Sprintf("cid %d not closed after %s", ci.cid, f))
+			} else if !ci.closeErr && !ci.localReq && !strings.HasPrefix(f, "close:") && !strings.HasPrefix(f, "epctl-del:") {
+				rec.failLocked("fault-close-error", f, fmt.Sprintf("cid %d: OnClose carried a nil error after %s", ci.cid, f))
+			}
 			continue
 		}
 		// C04: every opened connection is closed by the time Run returns
